@@ -35,6 +35,9 @@ def generate(rng, tier, shard, nshards):
         names = rng.choice(["str", "int", "tuple"])
         G, _ = cfg_proj(g)
         base = {"sr": srn, "G": G, "names": names}
+        if gi % 4 == 3:        # the grammar object was wrapped with another end-of-sequence symbol before
+            base["pre"] = ["add_eos_custom"]
+            feat = feat + "+wrapped-with-another-eos-before"
         ctxs = [[str(x) for x in c] for c in fam.strings(g.V, L)]
         for backend in ("earley", "rescaled", "cky"):
             for ctx in ctxs:
@@ -58,9 +61,10 @@ def generate(rng, tier, shard, nshards):
                 yield event("sample", dict(base, script=script, bound=bound, backend=backend), site=f"{backend}LM.sample",
                                  feat=feat + ("+max_tokens" if bound is not None else ""))
         for ctx in ctxs[:7]:
-            yield event("ntw", dict(base, ctx=ctx, backend="earley"), site="Earley.next_token_weights", feat=feat)
-            yield event("ntw", dict(base, ctx=ctx, backend="cky"), site="IncrementalCKY.p_next", feat=feat)
-            yield event("ntw_vs_parser", dict(base, ctx=ctx), site="ntw=parser(ctx+t)", feat=feat)
+            nb = {k: v for k, v in base.items() if k != "pre"}
+            yield event("ntw", dict(nb, ctx=ctx, backend="earley"), site="Earley.next_token_weights", feat=feat)
+            yield event("ntw", dict(nb, ctx=ctx, backend="cky"), site="IncrementalCKY.p_next", feat=feat)
+            yield event("ntw_vs_parser", dict(nb, ctx=ctx), site="ntw=parser(ctx+t)", feat=feat)
         yield event("pnext", dict(base, ctx=[gops.EOS_NAME], backend="earley"), site="earleyLM.p_next", feat=feat)
     # the same unnormalised identity over a finite semiring with arbitrary recursion
     for gi in range(n // 2):
